@@ -132,24 +132,54 @@ func loadFile(sys fs.FS, fname string) (pkgList, error) {
 
 func checkConstraint(s string) (bool, error) {
 	line := ""
-	for _, l := range strings.Split(s, "\n") { // the constraint may follow blank lines and other line comments
+	var plus []string // legacy "// +build" lines: they count when there is no //go:build line
+	inBlock := false
+	for _, l := range strings.Split(s, "\n") { // the constraint may follow blank lines and other comments of either kind
 		l = strings.TrimSpace(l)
+		if inBlock {
+			end := strings.Index(l, "*/")
+			if end < 0 {
+				continue
+			}
+			inBlock, l = false, strings.TrimSpace(l[end+2:])
+		}
+		for strings.HasPrefix(l, "/*") {
+			end := strings.Index(l[2:], "*/")
+			if end < 0 {
+				inBlock, l = true, ""
+				break
+			}
+			l = strings.TrimSpace(l[end+4:])
+		}
 		if constraint.IsGoBuild(l) {
 			line = l
 			break
+		}
+		if constraint.IsPlusBuild(l) {
+			plus = append(plus, l)
+			continue
 		}
 		if l != "" && !strings.HasPrefix(l, "//") {
 			break
 		}
 	}
+	ok := func(t string) bool { return t == "goat" }
 	if line == "" {
+		for _, l := range plus {
+			expr, err := constraint.Parse(l)
+			if err != nil {
+				return false, err
+			}
+			if !expr.Eval(ok) {
+				return false, nil
+			}
+		}
 		return true, nil
 	}
 	expr, err := constraint.Parse(line)
 	if err != nil {
 		return false, err
 	}
-	ok := func(t string) bool { return t == "goat" }
 	return expr.Eval(ok), nil
 
 }
